@@ -129,6 +129,7 @@ class World:
             fresh = Compiled(self.pipe.circuits, *self.flags, compile_only=[0] if ev == "L" else [0] + self.targets)
             if self.case.get("mode") == "eval":
                 # the fresh instance is put in evaluation mode and evaluated once BEFORE the dictionary is loaded
+                self.sanitize(fresh)  # fresh random values must lie in the layers' domains (stddev > 0, ...) to be evaluated
                 for t in ([0] if ev == "L" else [0] + self.targets):
                     fresh.cc(self.pipe.circuits[t]).eval()
                     fresh.evaluate(self.pipe.circuits[t], self.rows[t], self.nvars)
